@@ -1,5 +1,8 @@
 import WhVerif.Util.Proto
 import WhVerif.Model.C05
+import WhVerif.Model.C05Lik
+import WhVerif.Model.C05Recomb
+import WhVerif.Model.C05Table
 namespace WhVerif.Driver.C05
 open Lean WhVerif.Proto WhVerif.C05
 
@@ -41,8 +44,122 @@ def columnJson (ped : Ped) (c : Json) : Json :=
     | some res => ofList pairJson res
   | _, _, _ => badInput
 
+/-- likelihood column: `{t, gls, entries | cp}` -> `{alleles: [[a0, a1]…], cost}` or "NoAssignment" -/
+def likColumnJson (ped : Ped) (c : Json) : Json :=
+  let cp? : Option PartCosts :=
+    match (getObj? c "cp").bind parseCosts with
+    | some cp => some cp
+    | none => match getNat? c "t", (getObj? c "entries").bind parseEntries with
+      | some t, some es => some (costsFromEntries ped t es)
+      | _, _ => none
+  match getNat? c "t", (getObj? c "gls").bind natListList?, cp? with
+  | some t, some gls, some cp =>
+    match getAllelesLik ped t gls cp with
+    | none => Json.str "NoAssignment"
+    | some res => Json.mkObj [("alleles", ofList pairJson res), ("cost", ofOptNat (getCostLik ped t gls cp))]
+  | _, _, _ => badInput
+
+/-- a double as the exact pair `[m, e]`, value `m · 2^e` (`|m| < 2^53`) -/
+def parseFloat (j : Json) : Option Float := do
+  match ← intList? j with
+  | [m, e] => some ((Float.ofInt m).scaleB e)
+  | _ => none
+
+def floatJson (x : Float) : Json :=
+  if x.isNaN || x.isInf then Json.str (toString x)
+  else
+    let (f, e) := x.frExp
+    let m := f.scaleB 53
+    let mi : Int := if m < 0 then -((-m).toUInt64.toNat : Int) else (m.toUInt64.toNat : Int)
+    Json.arr #[ofInt mi, ofInt (e - 53)]
+
+def exceptJson {α} (f : α → Json) : Except String α → Json
+  | .ok v => Json.mkObj [("ok", f v)]
+  | .error e => Json.mkObj [("err", Json.str e)]
+
+open WhVerif.C05.Recomb in
+def recombJson (j : Json) : Json :=
+  match getIntList? j "positions" with
+  | none => badInput
+  | some positions =>
+    match (getObj? j "rate").bind parseFloat with
+    | some rate => exceptJson ofIntList (uniformRecombinationMap floatOps rate positions)
+    | none =>
+      match (getList? j "map").bind (·.mapM (fun e => do
+          match ← asArr? e with
+          | [p, d] => some (⟨← asInt? p, ← parseFloat d⟩ : MapEntry Float)
+          | _ => none)) with
+      | some gm =>
+        if (getBool? j "cum").getD false then
+          exceptJson (ofList floatJson) (cumulativeDistances floatOps gm.toArray positions)
+        else exceptJson ofIntList (recombinationCostMap floatOps gm.toArray positions)
+      | none => badInput
+
 def handle (op : String) (j : Json) : Option Json :=
-  if op == "c05.partitions" then
+  if op == "c05.lik_columns" then
+    match parsePed j, getList? j "cols" with
+    | some ped, some cols => some (Json.arr (cols.map (likColumnJson ped)).toArray)
+    | _, _ => some badInput
+  else if op == "c05.costs" then
+    -- trusted `get_cost()` per column: `{t, gts, entries}` -> cost or null
+    match parsePed j, getList? j "cols" with
+    | some ped, some cols => some (Json.arr (cols.map (fun c =>
+        match getNat? c "t", (getObj? c "gts").bind natListList?, (getObj? c "entries").bind parseEntries with
+        | some t, some gts, some es => ofOptNat (getCostTrusted ped t gts (costsFromEntries ped t es))
+        | _, _, _ => badInput)).toArray)
+    | _, _ => some badInput
+  else if op == "c05.constraint_table" then
+    -- `{tab, trios, include_hom, var_pos, acc}` -> `{rows, genotypes: [member][column] Gt, geno: constraint rows}` / "AssertionError"
+    match (getList? j "tab").bind (·.mapM natListList?), parseTriples j "trios", getBool? j "include_hom",
+        getNatList? j "var_pos", getNatList? j "acc" with
+    | some tab, some trios, some incl, some vp, some acc =>
+      some (match constraintTable tab trios incl vp acc with
+        | none => Json.str "AssertionError"
+        | some (rows, geno) => Json.mkObj [("rows", ofNatList rows),
+            ("genotypes", ofList (ofList ofNatList) (famGenotypes tab rows)),
+            ("geno", ofList (ofList (ofList ofOptNat)) geno)])
+    | _, _, _, _, _ => some badInput
+  else if op == "c05.recomb" then some (recombJson j)
+  else if op == "c05.as_phred" then
+    -- `{calls: [[[m, e]…]…] (log10 likelihoods) | pls: [[int…]…], reg: [m, e] | null}` -> per call list of ints / null
+    let reg := (getObj? j "reg").bind parseFloat
+    let calls? : Option (List (List Float)) :=
+      match (getList? j "calls").bind (·.mapM (fun c => (asArr? c).bind (·.mapM parseFloat))) with
+      | some cs => some cs
+      | none => ((getObj? j "pls").bind intListList?).map (·.map (·.map plToLog))
+    match calls? with
+    | some cs => some (ofList (fun c => match asPhredFloat c reg with | some r => ofIntList r | none => Json.null) cs)
+    | none => some badInput
+  else if op == "c05.gl_int" then
+    -- integer stage: `{pls: [[nat…]…]}` -> `plToPhred`; `{default_gq, gts}` -> `defaultGl`
+    match (getObj? j "pls").bind natListList?, getNat? j "default_gq", (getObj? j "gts").bind natListList? with
+    | some pls, _, _ => some (ofList ofNatList (pls.map plToPhred))
+    | none, some gq, some gts => some (ofList ofNatList (gts.map (defaultGl gq)))
+    | _, _, _ => some badInput
+  else if op == "c05.output_gt" then
+    -- `{calls: [[inputGt, [a0, a1]]…]}` -> output genotype per call
+    match getList? j "calls" with
+    | some cs => some (ofList (fun c =>
+        match (asArr? c) with
+        | some [g, sr] =>
+          (match natList? g, natList? sr with
+           | some g, some [a0, a1] => ofNatList (outputGt g (a0, a1))
+           | _, _ => badInput)
+        | _ => badInput) cs)
+    | none => some badInput
+  else if op == "c05.phred" then
+    -- list of distances `[m, e]` -> per distance `{ok: round(centimorgen_to_phred(d))}` / `{err}`
+    match (getList? j "d").bind (·.mapM parseFloat) with
+    | some ds => some (ofList (fun d => exceptJson ofInt (WhVerif.C05.Recomb.floatPhredRound d)) ds)
+    | none => some badInput
+  else if op == "c05.transition_cost" then
+    match getNatList? j "recomb", getNatList? j "tv" with
+    | some r, some tv => some (ofNat (WhVerif.C05.Recomb.transitionCost r tv))
+    | _, _ => some badInput
+  else if op == "c05.consts" then
+    some (Json.mkObj [("minDist", floatJson WhVerif.C05.Recomb.floatOps.minDist),
+      ("micro", floatJson WhVerif.C05.Recomb.floatOps.micro)])
+  else if op == "c05.partitions" then
     match parsePed j, getNat? j "t" with
     | some ped, some t =>
       some (ofList (fun i => match hapToPartition ped t i with | some p => pairJson p | none => Json.null) (List.range ped.size))
